@@ -12,10 +12,25 @@ import (
 // call error or error item) and knows nothing about the model.
 
 type cand struct {
-	path []string // nil: the error may surface anywhere (lazy failure inside a stream)
-	err  *ErrSpec // expected to be recoverable with errors.Is / errors.As
-	pan  int      // >= 0: a panic with this payload
-	what string
+	path   []string // nil: the error may surface anywhere (lazy failure inside a stream)
+	err    *ErrSpec // expected to be recoverable with errors.Is / errors.As
+	pan    int      // >= 0: a panic with this payload
+	masked bool     // the panic left a nested run: in stream mode a second panic replaces it (notes/C13.md)
+	what   string
+}
+
+func findGraph(g *Graph, path []string) *Graph {
+	if len(path) == 0 {
+		return g
+	}
+	for _, st := range g.Stages {
+		for _, n := range st {
+			if n.Key == path[0] && n.Kind == "sub" {
+				return findGraph(n.Sub, path[1:])
+			}
+		}
+	}
+	return nil
 }
 
 func findNode(g *Graph, path []string) (*Node, *ToolSpec) {
@@ -83,7 +98,7 @@ func (p *Proj) recovers(e *ErrSpec) bool {
 
 func (p *Proj) matches(c *cand) bool {
 	if c.pan >= 0 {
-		return p.Panic == c.pan && strings.Contains(p.Msg+" ", "panic")
+		return (p.Panic == c.pan || (c.masked && p.Panic == -2)) && p.MsgPanic
 	}
 	return p.recovers(c.err)
 }
@@ -106,6 +121,9 @@ func anyNested(c *Case) bool {
 	found := false
 	var walk func(g *Graph)
 	walk = func(g *Graph) {
+		if g.BrErr != nil && g.BrErr.Nested {
+			found = true
+		}
 		for _, st := range g.Stages {
 			for _, n := range st {
 				if n.Err != nil && n.Err.Nested {
@@ -193,6 +211,20 @@ func oracle(c *Case, o *Obs) (string, string) {
 			lazy = append(lazy, cand{pan: n.ID, what: r.Path + " panics while its stream is read"})
 		case "tool-convpanic":
 			lazy = append(lazy, cand{pan: t.ID, what: r.Path + " (tool) panics while its stream is forwarded"})
+		case "br-fail":
+			gp := path[:len(path)-1]
+			be := findGraph(c.G, gp).BrErr
+			bp := append([]string{}, gp...)
+			if be.Nested && len(bp) == 0 {
+				// newGraphRunError starts a wrapper with an empty path: at the top level nothing is
+				// prepended to it, and the path printed last is the one the error value brought (node x of
+				// the graph the condition ran); below, the parent's keys go to the outer wrapper
+				bp = append(bp, "x")
+			}
+			eager = append(eager, cand{path: bp, err: be, pan: -1, what: "the branch condition of graph /" + strings.Join(gp, "/") + " failed"})
+		case "br-panic":
+			gp := path[:len(path)-1]
+			eager = append(eager, cand{path: append([]string{}, gp...), pan: findGraph(c.G, gp).BrID, masked: true, what: "the branch condition of graph /" + strings.Join(gp, "/") + " panicked"})
 		case "rerun":
 			rerun = true
 		case "cancel":
@@ -217,10 +249,10 @@ func oracle(c *Case, o *Obs) (string, string) {
 	}
 	p := o.P
 	// sentinels are matchable whenever the message says it is them
-	if strings.Contains(p.Msg, "exceeds max steps") && !p.Is[2] {
+	if p.MsgLimit && !p.Is[2] {
 		return "the error says the step limit was exceeded but errors.Is(err, ErrExceedMaxSteps) is false", "sentinel-not-matchable"
 	}
-	if strings.Contains(p.Msg, "context canceled") && !p.Is[3] {
+	if p.MsgCancel && !p.Is[3] {
 		return "the error says the context was cancelled but errors.Is(err, context.Canceled) is false", "sentinel-not-matchable"
 	}
 	// whatever failed, the path the error names is a path of nodes that exist
@@ -243,6 +275,11 @@ func oracle(c *Case, o *Obs) (string, string) {
 		// a panic while a copied stream is read: the copy's other readers find the shared element
 		// abandoned and report ErrRecvAfterClosed; the run still fails (accepted, see notes/C13.md)
 		if lazy[i].pan >= 0 && p.Is[5] {
+			return "", ""
+		}
+		// an interrupt's checkpoint conversion read the panicking stream on the run loop's goroutine of a
+		// nested run: the parent's executor contained it; in stream mode the payload is a second panic's
+		if lazy[i].pan >= 0 && rerun && p.Panic == -2 && p.MsgPanic {
 			return "", ""
 		}
 	}
@@ -273,13 +310,21 @@ func tagsOf(c *Case, o *Obs) []string {
 	maxPar := 0
 	var walk func(g *Graph)
 	walk = func(g *Graph) {
-		if g.Dag {
+		if g.WF {
+			faults["mode-workflow"]++
+		} else if g.Dag {
 			faults["mode-dag"]++
 		} else {
 			faults["mode-pregel"]++
 		}
 		if g.Loop {
 			faults["loop"]++
+		}
+		if g.EndBr {
+			faults["end-branch"]++
+		}
+		if g.Br != "" {
+			faults["branch-"+g.Br]++
 		}
 		if g.Max > 0 {
 			faults["explicit-max"]++
@@ -328,7 +373,7 @@ func tagsOf(c *Case, o *Obs) []string {
 	nf := 0
 	for k, v := range faults {
 		t = append(t, "has:"+k)
-		if !strings.HasPrefix(k, "mode-") && !strings.HasPrefix(k, "flav-") && !strings.HasPrefix(k, "err-") && k != "loop" && k != "explicit-max" {
+		if !strings.HasPrefix(k, "mode-") && !strings.HasPrefix(k, "flav-") && !strings.HasPrefix(k, "err-") && k != "loop" && k != "explicit-max" && k != "end-branch" {
 			nf += v
 		}
 	}
